@@ -25,7 +25,7 @@ for ID in "$@"; do
     echo "seed $ID: demonstration $name ($dest)"
     echo "with the change   : exit $rc_with  :: $(grep -E '^test result' /tmp/seed-base/with_$ID.log | tail -1)"
     echo "without the change: exit $rc_without :: $(grep -E '^test result' /tmp/seed-base/without_$ID.log | tail -1)"
-    if [ $rc_with -ne 0 ] && [ $rc_without -eq 0 ]; then echo "CONFIRMED: fails with the change, passes without it"; else echo "NOT CONFIRMED"; fi
+    if [ $rc_with -ne 0 ] && grep -q "^test result: FAILED" /tmp/seed-base/with_$ID.log && [ $rc_without -eq 0 ]; then echo "CONFIRMED: fails with the change, passes without it"; else echo "NOT CONFIRMED"; fi
   } > $S/confirm.txt
   cat $S/confirm.txt | tail -1 | sed "s/^/$ID: /"
   rm -f $dest/$name.rs; rm -f $CARGO_TARGET_DIR/debug/deps/${name}-*
